@@ -21,6 +21,7 @@ func histAlpha() qcheck.Alpha {
 		LeaseOps: []string{"ack", "nack", "nackd", "ext", "dead"}, LeaseBatch: true, MaxHandles: 2,
 		Operator: []string{"cancel", "requeue"},
 		Ticks:    []time.Duration{sec, 2 * sec},
+		Reopen:   true, // SQLite: a restart must not hand a leased message to a second consumer
 	}
 }
 
